@@ -5,7 +5,7 @@
    `x = x`; it is observed on the implementation and judged by C02.Run.spec_ok (flag c_stable). *)
 From Coq Require Import ZArith List Bool Permutation.
 Import ListNotations.
-From QCE Require Import Base.Prelude Core.Model Core.BfsProofs Core.BfsWf C02.Proofs.
+From QCE Require Import Base.Prelude Core.Model Core.BfsProofs Core.BfsWf C02.Run C02.Proofs.
 From Gen Require Import Ident Classes.
 
 (* every graph a program builds is a well-formed forest, at every nesting level: the hypothesis of the graph-level theorems *)
@@ -31,7 +31,7 @@ Proof. exact listing_built_perm. Qed.
 (* for the classes of the current source no faithfulness hypothesis is left *)
 Theorem C02_leaves_perm_current_classes : forall env p, prog_ok env p ->
   Permutation (map e_leaf (listing env (run_prog env p))) (prog_leaves p).
-Proof. exact (fun env p => listing_leaves_perm_table env p current_table_faithful). Qed.
+Proof. exact listing_leaves_perm_current. Qed.
 
 (* at most 4999 commands in the program and in every sub-circuit body is enough *)
 Theorem C02_small_prog_ok : forall env p, small_prog p -> prog_ok env p.
